@@ -592,6 +592,9 @@ func (i c06Info) Extended() []StatExtended {
 	return out
 }
 
+var c06ReusedData sshfx.DataPacket
+var c06ReusedWrite sshfx.WritePacket
+
 func c06Run(u *vfUnit) {
 	_ = c06Once
 	r := u.Rng
@@ -675,6 +678,31 @@ func c06Run(u *vfUnit) {
 				fail("fx-decode-error:"+kind, fmt.Sprintf("filexfer cannot decode %s: %v", p, err), p, nil)
 			} else if !reflect.DeepEqual(c06Norm(back), c06Norm(p)) {
 				fail("fx-decode:"+kind, fmt.Sprintf("filexfer decodes %s as %s", p, vfTrim(fmt.Sprintf("%+v", back), 400)), p, nil)
+			}
+		}
+		// filexfer decodes DATA and WRITE payloads into the packet value it is given (re-using its Data
+		// slice): decoding a stream of packets into ONE long-lived value must still be lossless
+		if kind == "DATA" || kind == "WRITE" {
+			buf := sshfx.NewBuffer(append([]byte(nil), ref[9:]...)) // after length, type and request id
+			var got []byte
+			var derr error
+			if kind == "DATA" {
+				derr = c06ReusedData.UnmarshalPacketBody(buf)
+				got = c06ReusedData.Data
+			} else {
+				derr = c06ReusedWrite.UnmarshalPacketBody(buf)
+				got = c06ReusedWrite.Data
+			}
+			u.Count("fx_reused_packet_decodes", 1)
+			if derr != nil || !bytes.Equal(got, p.Data) {
+				fail("fx-decode-reused-packet:"+kind, fmt.Sprintf("filexfer decoding %s into a re-used packet value yields %d payload bytes (err %v), sent %d", p, len(got), derr, len(p.Data)), p, nil)
+			}
+			// leave the value with a short length but spare capacity for the next decode
+			if kind == "DATA" && len(c06ReusedData.Data) > 3 {
+				c06ReusedData.Data = c06ReusedData.Data[:3]
+			}
+			if kind == "WRITE" && len(c06ReusedWrite.Data) > 3 {
+				c06ReusedWrite.Data = c06ReusedWrite.Data[:3]
 			}
 		}
 		// FileInfo-based encoders of packet.go (ATTRS reply and NAME entries)
